@@ -15,7 +15,7 @@ CLAIMS = {
  'C02': ('offline checker over a recorded event log: no Get/IterValues that starts after a value\'s OnExit entry returns it (unique values, one logical clock), stress with probers and delay injection at every detach path; porcupine v1.3.0 linearizability check (per-key register) of overwrite/read histories on resident keys',
          'Exploration: hundreds of thousands of hits per run are checked against the exit entries of their values on 1-8 hot keys under overwrite, overwrite-while-buffered, eviction, Del/re-insert, expiry and Clear races; register histories (<= 200 ops per key) are decided by porcupine, a timeout counts as inconclusive.', '5/C02'),
  'C03': ('quiescent-point assertion monitor (white-box snapshot under the cache\'s own locks vs RemainingCost/MaxCost), shadow accounting with fixed per-key costs, concurrent RemainingCost sampler; race-detector build',
-         'Exploration: used == sum of accounted costs, RemainingCost() == MaxCost - used, accounted cost of every key == its fixed cost (+ internal overhead), RemainingCost() >= 0 at drained points and in a concurrent sampler in histories without cost-raising overwrites; cost sources explicit / Config.Cost / internal cost on and off, UpdateMaxCost raises.', '5/C03'),
+         'Exploration: used == sum of accounted costs, RemainingCost() == MaxCost - used, accounted cost of every key == its fixed cost (+ internal overhead), RemainingCost() >= 0 at drained points and in a concurrent sampler in histories without cost-raising overwrites; cost sources explicit / Config.Cost / internal cost on and off, UpdateMaxCost raises; heavy-tailed fixed costs and a directed job (cache filled exactly, one newcomer of every cost 1..MaxCost+1) exercise admissions that need many victims.', '5/C03, 9.5'),
  'C04': ('offline per-value life-cycle automaton over a recorded event log (issued -> accepted|refused -> (evict|reject)? -> exit) from free-running stress with delay injection; race-detector build',
          'Exploration: every accepted value exits exactly once by the return of the next Clear/Close called after its Set returned, refused values reach no callback, OnEvict/OnReject at most once and followed by OnExit, no hit after exit; write-buffer sizes 1..32768, all capacities, TTLs, ShouldUpdate refusals, concurrent Clear; gated sequential episodes compare the exact callback multiset per operation; a directed job (hold Set/Del between the store update and OnExit, run Clear, release) reproduces known finding KF1 on every run, which is reported as KNOWN-FINDING.', '5/C04, 9.2'),
  'C05': ('reference-model monitor in lock-step with the single-stepped applier (gate hook): exhaustive enumeration of write prefixes x applier lags before Del, random gated sequences; callbacks compared per operation',
@@ -23,11 +23,11 @@ CLAIMS = {
  'C06': ('reference-model monitor (map + explicit FIFO of pending writes) driven in lock-step with the applier, which is single-stepped through the vpApplierItem hook so that lag is an explicit integer; Wait early-return probe',
          'Exploration: thousands of random single-client sequences of Set/SetWithTTL/Del/Get/GetTTL/IterValues/Wait/Clear with "apply n items" steps in between; every Get/GetTTL/IterValues result and the white-box map contents must equal the model; Wait must not return before the items buffered ahead of its marker are applied; a no-sweep mode adds millisecond TTLs; the directed sweep schedules of C14 are also run under C06 (an entry re-written without TTL / with a later TTL must stay retrievable).', '5/C06, 9.5'),
  'C07': ('interval checker with sound wall-time brackets over scripted per-key histories (expiration lies in [t0+ttl, t1+ttl] with t0/t1 read around SetWithTTL); applier held by the gate hook for born-expired inserts; observers Get, GetTTL, IterValues; many caches in parallel',
-         'Exploration: an observation that started after the latest possible expiration must not yield the item, one that finished before the earliest possible expiration must yield it (ample capacity, control key), anything in between is counted as inconclusive band; GetTTL <= ttl, no expiry for ttl=0, negative ttl returns false / stores nothing / reaches no callback. Real time cannot be compressed: the number of bracketed observations is what the budget allows.', '5/C07'),
+         'Exploration: an observation that started after the latest possible expiration must not yield the item, one that finished before the earliest possible expiration must yield it (ample capacity, control key), anything in between is counted as inconclusive band; GetTTL <= ttl, no expiry for ttl=0, negative ttl returns false / stores nothing / reaches no callback. 1-second expiry buckets so that sweeps fall inside the scripts; late-application scripts where the insert waits in the write buffer behind a held item and is then re-written. Real time cannot be compressed: the number of bracketed observations is what the budget allows.', '5/C07, 9.5'),
  'C08': ('Go race detector (halt_on_error=0, reports de-duplicated by outermost ristretto frame pair) + per-call recover + per-call watchdog with canary; the workload shares no monitor state between goroutines so no happens-before edges are added',
          'Exploration: 2..64 goroutines issue all 12 listed call kinds on one open cache over BufferItems/NumCounters/MaxCost/metrics/callbacks/TTL/write-buffer-size configurations with delay injection at hook points; any race report with a ristretto frame, any recovered panic, any death of a cache goroutine and any call pending > 60 s while the canary is healthy is a violation. "Bounded time" is decided in that restated form. Close is only called after the clients joined.', '5/C08'),
  'C09': ('online decision monitor: the verifSampled hook reports (incoming estimate, sample, chosen minimum) under the policy mutex and the monitor recomputes every estimate, the minimum and the expected branch independently, then matches OnEvict order / OnReject / accounting; plus a black-box layer valid for any sampling scheme',
-         'Exploration: thousands of decisions over resident populations 1..40, cost and frequency assignments (ties, zero, saturated), incoming classes {fits, fits exactly, exceeds by 1, needs k victims, larger than MaxCost, already resident}, each configuration repeated for different map iteration orders. The sample size is recorded, never asserted.', '5/C09'),
+         'Exploration: thousands of decisions over resident populations 1..40, cost and frequency assignments (ties, zero, saturated), incoming classes {fits, fits exactly, exceeds by 1, needs k victims, larger than MaxCost, already resident}, each configuration repeated for different map iteration orders. A fifth of the decisions run while another goroutine records accesses of the newcomer (the estimate used must be the one valid under the mutex); duplicate pending Sets of a new key (second one must be rejected through OnReject). The sample size is recorded, never asserted.', '5/C09, 9.5'),
  'C10': ('differential reference-model monitor (map[uint64]uint64) over generated Set/DeleteBelow/IterateKV-rewrite/Reset histories, six page sizes, checkptr build',
          'Exploration: after every operation the touched keys, and periodically every key ever used plus the IterateKV multiset, are compared with a reference map; thresholds are tied to existing values so that leaf maxima are hit; histories cross node splits, page recycling and growth of the 1 MiB buffer; page sizes: the six boundary sizes plus sizes drawn from the whole range; in half of the short histories a fault-injection hook moves the backing buffer at every fresh page allocation (what Buffer.Grow does at capacity crossings), so a write through a stale node reference is lost immediately.', '5/C10, 9.5'),
  'C11': ('differential reference-model monitor ([]byte / [][]byte) over the four buffer kinds, sortedness + permutation oracle for the sorter, checkptr build',
@@ -35,11 +35,11 @@ CLAIMS = {
  'C12': ('address-interval disjointness + fill-pattern re-read + alignment/zero/copy assertions + sequential replay after Reset + per-call watchdog; Go race detector as second oracle (vwork.race), bulk sizes under checkptr (vwork.ptr)',
          'Exploration: epochs of 1..64 goroutines allocating sizes that straddle chunk boundaries on one allocator, with Reset and TrimTo;Reset between epochs; all handed-out intervals are sorted and checked for overlap and every pattern is re-read. TrimTo is only issued immediately before Reset (the AllocatorPool protocol): using an allocator after TrimTo without Reset hands out freed memory by construction and is outside the statement.', '5/C12'),
  'C13': ('quiescent-point assertion monitor: white-box snapshot invariants (policy key set == map key set, used == sum) and IterValues multiset vs snapshot; empty-cache clause after delete-all / clear / expire-and-sweep; race-detector build',
-         'Exploration: at every barrier (clients parked, Wait, applier paused by its own stop/done handshake) the snapshot taken under the cache\'s own locks must satisfy I1/I2 and IterValues must yield exactly the unexpired resident values once and stop when asked.', '5/C13'),
+         'Exploration: at every barrier (clients parked, Wait, applier paused by its own stop/done handshake) the snapshot taken under the cache\'s own locks must satisfy I1/I2 and IterValues must yield exactly the unexpired resident values once and stop when asked; in two thirds of the episodes Clear is also issued concurrently with the writers.', '5/C13, 9.5'),
  'C14': ('directed schedule forcing through sweep hook points (the sweep is held after the bucket grab / before a key\'s check / after its conditional removal while a client re-writes or deletes the key), late-application schedules (insert waits in the write buffer until its bucket lies behind the frontier), stress with delays at the sweep points; oracles: per-value life-cycle attribution, bounded-progress restatement of "eventually", index-reachability invariant on white-box snapshots',
          'Exploration: position x racing call x position of the key in its bucket (100 directed cases per round), about half of the late-application attempts reach the sweep-first ordering (observed, not forced: the applier\'s select is random), stress episodes attribute every sweep eviction to a write whose earliest possible expiration had passed. "Eventually removed" is decided as: removed, reported once and cost released once a sweep that started after the application has completed with a frontier beyond the entry\'s bucket and the frontier at application; plus: every stored TTL entry is indexed in a bucket the sweep will still visit.', '5/C14'),
  'C15': ('post-condition assertions after Clear/Close in gated sequential histories (model predicts exact callbacks), goroutine-profile monitor, bounded-return probes for calls on a closed cache',
-         'Exploration: histories that leave resident entries, buffered new items, buffered updates, buffered tombstones, pending Wait markers (blocked helper goroutines) and TTL entries at the moment of Clear/Close (the number of items applied before the applier stops is observed, not predicted); after Clear: empty snapshot, RemainingCost == MaxCost, metrics zero, waiters released, new writes served; after Close: Set false, Get miss, Del/Wait/Clear/Close return, no processItems goroutine left, every held or buffered value released exactly once; no-sweep episodes make expired-but-unswept entries resident at Clear/Close; free-running episodes (clients joined with the buffer undrained, blocked Wait helpers, delays at the three internal points of Clear) assert the same post-conditions and run the life-cycle automaton.', '5/C15'),
+         'Exploration: histories that leave resident entries, buffered new items, buffered updates, buffered tombstones, pending Wait markers (blocked helper goroutines) and TTL entries at the moment of Clear/Close (the number of items applied before the applier stops is observed, not predicted); after Clear: empty snapshot, RemainingCost == MaxCost, metrics zero, waiters released, new writes served; after Close: Set false, Get miss, Del/Wait/Clear/Close return, no processItems goroutine left, every held or buffered value released exactly once; no-sweep episodes make expired-but-unswept entries resident at Clear/Close; free-running episodes (clients joined with the buffer undrained, blocked Wait helpers, delays at the three internal points of Clear) assert the same post-conditions and run the life-cycle automaton; a directed job blocks 1..8 Wait callers on a completely full write buffer (verified in the goroutine profile) before Clear/Close.', '5/C15, 9.5'),
  'C16': ('C10 differential monitor carried across clean close + reopen of a persistent tree, Stats equality, recycled-page reuse assertion, checkptr build',
          'Exploration: Set/DeleteBelow histories on a file-backed tree, closed and reopened at random points, right after DeleteBelow recycled pages, at page-count boundaries of the mapped file, right after creation and at the end; contents, Stats (all but Allocated) and subsequent behaviour are compared with the reference.', '5/C16'),
  'C17': ('quiescent-point conservation checker: Metrics counters vs harness-side per-goroutine counters and the white-box snapshot; race-detector build',
@@ -49,7 +49,7 @@ CLAIMS = {
  'C19': ('reference-set monitor with structured probe hashes and JSON round-trip differential, checkptr build',
          'Exploration: generated Add/AddIfNotHas/Has/Clear/JSON sequences over parameter lists, each answer compared with a reference set; no false negative, AddIfNotHas contract, Clear, serialization equality on every probed hash; restored filters are cleared and histories continue on them.', '5/C19'),
  'C20': ('differential monitor vs simd.Naive with adversarial tails + guard-page sanitizer (PROT_NONE page after the slice, SetPanicOnFault)',
-         'Exploration with a completely enumerated sub-space: every even length 0..518 x first-match position x k class x tail pattern, plus random contents; any read past len(xs) faults on the guard page and is recorded.', '5/C20'),
+         'Exploration with a completely enumerated sub-space: every even length 0..518 x first-match position x k class x tail pattern, x base alignment of the slice within a cache line, plus random contents; any read past len(xs) faults on the guard page and is recorded.', '5/C20, 9.5'),
 }
 checks = []
 for p in props:
